@@ -106,7 +106,8 @@ func (ds *DomainStore) Iterate(fn func(name Name, domain *Domain) bool) (stopped
 func (ds *DomainStore) IterateSubDomain(parentName Name, fn func(name Name, domain *Domain) bool) (stopped bool) {
 	start := append(ds.prefix, ("." + parentName).toKey()...)
 	end := storage.Rangefix(string(start))
-	return ds.State.IterateRange(
+	// also the sub names created earlier in this block: they belong to the parent like the others
+	return ds.State.IterateRangeAll(
 		start,
 		end,
 		true,
